@@ -215,3 +215,124 @@ class Bench:
         o.alive = w.alive
         o.nr = w.nr
         return o
+
+
+class ParkSock(SockProxy):
+    """Server-side socket that tells the driver when its handler is parked in recv()."""
+
+    def __init__(self, sock):
+        super().__init__(sock)
+        self.parked = False
+
+    def recv(self, n, *a):
+        self.parked = True
+        try:
+            return self._s.recv(n, *a)
+        finally:
+            self.parked = False
+
+
+class Interleaver:
+    """Several connections served concurrently by ONE worker object, interleaved at request
+    granularity - exactly the points where a gevent/eventlet worker switches between connections
+    (a blocking recv) and where the threaded worker hands a connection back to its poller.
+    Each connection's handler runs in its own OS thread but only one of them is ever unparked:
+    the driver delivers one event, then waits until that handler is blocked in recv() again."""
+
+    def __init__(self, bench_obj):
+        import threading
+        self.b = bench_obj
+        self.threading = threading
+        self.conns = {}
+
+    def _wait_parked(self, c, timeout=5.0):
+        import time
+        t0 = time.time()
+        while time.time() - t0 < timeout:
+            if c["done"] or c["sock"].parked:
+                return True
+            time.sleep(0.0002)
+        return False
+
+    def open(self, name, peer):
+        s, cl = socket.socketpair()
+        ps = ParkSock(s)
+        c = {"sock": ps, "client": cl, "peer": peer, "done": False, "exc": None, "raw": s, "wire": b""}
+        b = self.b
+        w = b.worker
+
+        def run():
+            try:
+                if b.kind == "gthread":
+                    conn = TConn(b.cfg, ps, peer, b.listener.getsockname())
+                    conn.init()
+                    keep = True
+                    while keep:
+                        keep, _ = w.handle(conn)
+                        if keep and not w.alive:
+                            keep = False
+                    conn.close()
+                else:
+                    ps.setblocking(True)
+                    w.handle(b.listener, ps, peer)
+            except BaseException as e:
+                c["exc"] = "%s: %s" % (type(e).__name__, e)
+            finally:
+                c["done"] = True
+        th = self.threading.Thread(target=run, daemon=True)
+        c["thread"] = th
+        self.conns[name] = c
+        th.start()
+        assert self._wait_parked(c), "handler did not park"
+        return c
+
+    def send(self, name, data):
+        """Deliver bytes, let the handler run until it parks again; returns the bytes it wrote."""
+        c = self.conns[name]
+        c["client"].sendall(data)
+        import time
+        time.sleep(0.0005)
+        # the handler leaves recv, works, and parks again (or finishes)
+        t0 = time.time()
+        while time.time() - t0 < 5.0:
+            if c["done"] or (c["sock"].parked and self._idle(c)):
+                break
+            time.sleep(0.0002)
+        return self._drain(c)
+
+    def _idle(self, c):
+        # parked with nothing left to read on the server side
+        import select
+        r, _, _ = select.select([c["raw"]], [], [], 0)
+        return not r
+
+    def _drain(self, c):
+        out = []
+        c["client"].setblocking(False)
+        try:
+            while True:
+                d = c["client"].recv(65536)
+                if not d:
+                    break
+                out.append(d)
+        except (BlockingIOError, OSError):
+            pass
+        c["client"].setblocking(True)
+        got = b"".join(out)
+        c["wire"] += got
+        return got
+
+    def close(self, name):
+        c = self.conns[name]
+        try:
+            c["client"].shutdown(socket.SHUT_WR)
+        except OSError:
+            pass
+        c["thread"].join(5.0)
+        self._drain(c)
+        for x in (c["client"], c["raw"]):
+            try:
+                x.close()
+            except OSError:
+                pass
+        return c
